@@ -7,6 +7,8 @@ abstract names (categories), abstract child nodes, and the two ways templates ar
 """
 from __future__ import annotations
 
+import ast
+
 from typing import Any, Callable, Dict, List, Optional, Tuple
 
 from .absint import Interp, Path, RaiseEx
@@ -97,8 +99,18 @@ def std_summaries(program: Program) -> Dict[str, Callable]:
     def s_instance(I, func, self_val, args, kwargs, node, fr):
         return the_config(I)
 
+    def param(func, args, kwargs, i):
+        """the i-th parameter (after self) of a config accessor, however the call passed it"""
+        a = func.node.args
+        names = [x.arg for x in a.posonlyargs + a.args + a.kwonlyargs if x.arg not in ("self", "cls")]
+        if i < len(args):
+            return args[i]
+        if i < len(names) and names[i] in kwargs:
+            return kwargs[names[i]]
+        raise AnalysisError(f"config accessor {func.qualname}: parameter {i} not passed")
+
     def s_get_info(I, func, self_val, args, kwargs, node, fr):
-        k = cfg_key(args[0] if args else kwargs["key"])
+        k = cfg_key(param(func, args, kwargs, 0))
         store = the_config(I).fields["global_info"]
         was_set = isinstance(store, DictV) and any(cfg_key(kk) == k for kk, _ in store.pairs)
         val = I.call_func(func, args, kwargs, self_val, node, fr, skip_summary=True)
@@ -110,13 +122,35 @@ def std_summaries(program: Program) -> Dict[str, Callable]:
         return val
 
     def s_set_info(I, func, self_val, args, kwargs, node, fr):
-        k = cfg_key(args[0] if args else kwargs["key"])
-        v = args[1] if len(args) > 1 else kwargs["value"]
+        k = cfg_key(param(func, args, kwargs, 0))
+        v = param(func, args, kwargs, 1)
         I.run.event("cfg_set", key=k, value=v, node=node, func=(fr.func.qualname if fr and fr.func else ""))
         return I.call_func(func, args, kwargs, self_val, node, fr, skip_summary=True)
 
-    return {"JASMConfig.__call__": s_instance, "JASMConfig.get_instance": s_instance,
-            "JASMConfig.get_info": s_get_info, "JASMConfig._set_info": s_set_info}
+    # the accessors are recognised by what they do to the store (a private setter may carry any name): the setter is the
+    # method that assigns self.global_info[<param>] = <param>, the getter the one that returns a read of it
+    out = {"JASMConfig.__call__": s_instance, "JASMConfig.get_instance": s_instance}
+    setters, getters = [], []
+    if cfg_cls is not None:
+        for name, fi in cfg_cls.methods.items():
+            a = fi.node.args
+            nparams = len([x for x in a.posonlyargs + a.args + a.kwonlyargs if x.arg not in ("self", "cls")])
+
+            def on_store(n):
+                return isinstance(n, ast.Attribute) and n.attr == "global_info" and isinstance(n.value, ast.Name) and \
+                    n.value.id in ("self", "cls")
+            stores = [n for n in ast.walk(fi.node) if isinstance(n, ast.Subscript) and isinstance(n.ctx, ast.Store) and on_store(n.value)]
+            reads = [n for n in ast.walk(fi.node) if isinstance(n, ast.Return) and n.value is not None and
+                     any(on_store(m) for m in ast.walk(n.value))]
+            if stores and nparams == 2 and not name.startswith("__"):
+                setters.append(name)
+            elif reads and nparams == 1 and not stores and not name.startswith("__"):
+                getters.append(name)
+    if len(setters) != 1 or len(getters) != 1:
+        raise AnalysisError(f"JASMConfig: expected one setter and one getter of the global store, found {setters} / {getters}")
+    out[f"JASMConfig.{getters[0]}"] = s_get_info
+    out[f"JASMConfig.{setters[0]}"] = s_set_info
+    return out
 
 
 def child_hook(I: Interp, f: Unknown, args, kwargs, node, fr) -> Optional[Value]:
